@@ -77,46 +77,85 @@ theorem showInt_inert (n : Int) : inertAll (showInt n) = true := by
     · apply endsTerm_of_all
       simp only [showInt, List.all_cons, this.2, Bool.and_true]; decide
 
-/-! ### base64 and date payloads, followed by the closing quote -/
+/-! ### base64 and date payloads: never a quote or a backslash -/
 
-theorem b64Char_quiet (n : Nat) : quietChar (b64Char n) = true := by
-  simp only [b64Char, quietChar]
-  split
-  · simp; omega
-  · split
-    · simp; omega
-    · split
-      · simp; omega
-      · split <;> simp
-
-theorem b64Encode_quiet (bs : List Nat) : (b64Encode bs).all quietChar = true := by
+theorem b64Encode_forall {P : Nat → Prop} (hch : ∀ n, P (b64Char n)) (hpad : P 61) :
+    ∀ (bs : List Nat) (c : Nat), c ∈ b64Encode bs → P c := by
+  intro bs
   induction bs using b64Encode.induct with
-  | case1 => rfl
+  | case1 => intro c hc; simp [b64Encode] at hc
   | case2 a =>
-    simp only [b64Encode, List.all_cons, List.all_nil, b64Char_quiet, Bool.true_and, Bool.and_true]; decide
+    intro c hc
+    simp only [b64Encode, List.mem_cons, List.not_mem_nil, or_false] at hc
+    rcases hc with rfl | rfl | rfl | rfl
+    · exact hch _
+    · exact hch _
+    · exact hpad
+    · exact hpad
   | case3 a b =>
-    simp only [b64Encode, List.all_cons, List.all_nil, b64Char_quiet, Bool.true_and, Bool.and_true]; decide
-  | case4 a b c r ih => simp [b64Encode, b64Char_quiet, ih]
+    intro c hc
+    simp only [b64Encode, List.mem_cons, List.not_mem_nil, or_false] at hc
+    rcases hc with rfl | rfl | rfl | rfl
+    · exact hch _
+    · exact hch _
+    · exact hch _
+    · exact hpad
+  | case4 a b c' r ih =>
+    intro c hc
+    simp only [b64Encode, List.mem_cons] at hc
+    rcases hc with rfl | rfl | rfl | rfl | h
+    · exact hch _
+    · exact hch _
+    · exact hch _
+    · exact hch _
+    · exact ih c h
 
-theorem b64q_inert (bs : List Nat) : inertAll (b64Encode bs ++ [34]) = true := by
-  apply inert_of_quiet
-  · simp [List.all_append, b64Encode_quiet, quietChar]
-  · exact endsTerm_append_singleton (by decide) _
+theorem b64Char_raw (n : Nat) : keyNeedsEscape (b64Char n) = false := by
+  simp only [b64Char]
+  split
+  · simp [keyNeedsEscape]; omega
+  · split
+    · simp [keyNeedsEscape]; omega
+    · split
+      · simp [keyNeedsEscape]; omega
+      · split <;> simp [keyNeedsEscape]
 
-theorem dateChar_quiet {c : Nat} (h : dateChar c = true) : quietChar c = true := by
-  simp only [dateChar, Bool.or_eq_true, beq_iff_eq] at h
-  rcases h with ((((((h | h) | h) | h) | h) | h) | h)
-  · exact (isDigit_quiet h).1
-  all_goals subst h; decide
+theorem b64_raw (bs : List Nat) : (b64Encode bs).any keyNeedsEscape = false :=
+  List.any_eq_false.mpr (fun c hc => by
+    have := b64Encode_forall (P := fun c => keyNeedsEscape c = false) b64Char_raw (by decide) bs c hc
+    simp [this])
 
-theorem dateq_inert {t : Str} (h : dateValid t = true) : inertAll (t ++ [34]) = true := by
-  have hall : t.all dateChar = true := by
-    simp only [dateValid, Bool.and_eq_true] at h
-    exact h.1
-  apply inert_of_quiet
-  · simp only [List.all_append, List.all_cons, List.all_nil, Bool.and_true, Bool.and_eq_true]
-    exact ⟨List.all_eq_true.mpr (fun c hc => dateChar_quiet ((List.all_eq_true.mp hall) c hc)), by decide⟩
-  · exact endsTerm_append_singleton (by decide) _
+theorem date_raw {t : Str} (h : dateValid t = true) : t.any keyNeedsEscape = false := by
+  simp only [dateValid, Bool.and_eq_true] at h
+  apply List.any_eq_false.mpr
+  intro c hc
+  have := (List.all_eq_true.mp h.1) c hc
+  simp only [dateChar, isDigit, Bool.or_eq_true, Bool.and_eq_true, decide_eq_true_eq, beq_iff_eq] at this
+  simp only [keyNeedsEscape, Bool.or_eq_true, beq_iff_eq, decide_eq_true_eq]
+  omega
+
+/-- a raw string without quote, backslash or control character is a complete literal body -/
+theorem litBody_of_raw {s : Str} (h : s.any keyNeedsEscape = false) : litBody s = true :=
+  litBody_of_clean (fun c hc => by
+    have := (List.any_eq_false.mp h) c hc
+    simp only [keyNeedsEscape, Bool.or_eq_true, beq_iff_eq, decide_eq_true_eq] at this
+    omega)
+
+theorem b64Encode_quiet (bs : List Nat) : (b64Encode bs).all quietChar = true :=
+  List.all_eq_true.mpr (fun c hc => by
+    have := (List.any_eq_false.mp (b64_raw bs)) c hc
+    have h43 : quietChar c = true := b64Encode_forall (P := fun c => quietChar c = true)
+      (by
+        intro n
+        simp only [b64Char, quietChar]
+        split
+        · simp; omega
+        · split
+          · simp; omega
+          · split
+            · simp; omega
+            · split <;> simp) (by decide) bs c hc
+    exact h43)
 
 /-! ### double literals (`isJsonNumber`) -/
 
